@@ -102,6 +102,9 @@ Definition spec_scan (st : store) (s e : key) (limit : nat) (t : ts) (resolved :
 Definition spec_rscan (st : store) (s e : key) (limit : nat) (t : ts) (resolved : list ts) : list pair :=
   firstn limit (rev (spec_scan_all st s e t resolved)).
 
+(* isolation level RC: the same reads with every lock ignored *)
+Definition unlocked (st : store) : store := map (fun kv => (fst kv, mkKs None (ks_writes (snd kv)))) st.
+
 (* ------------------------------------------------------------------ boolean conclusions *)
 Fixpoint nodupb (l : list N) : bool :=
   match l with [] => true | x :: r => negb (existsb (N.eqb x) r) && nodupb r end.
@@ -137,5 +140,6 @@ Definition prewrite_targets (c : cmd) : list (key * ts) :=
   end.
 Definition resp_has_error (r : resp) : bool :=
   match r with RErrs es => has_err es | RErr (Some _) => true | RPess (_ :: _) _ => true | _ => false end.
+(* commands that may remove a commit / rollback record of start ts s: GC at or above it, DeleteRange *)
 Definition is_gc_over (c : cmd) (s : ts) : bool :=
-  match c with GC _ _ sp => s <=? sp | _ => false end.
+  match c with GC _ _ sp => s <=? sp | DeleteRange _ _ => true | _ => false end.
